@@ -15,6 +15,7 @@ e.g. ``safe_power:jacobian`` or ``pow[ad,ad]:jacobian``.
 from __future__ import annotations
 
 import math
+import traceback
 
 import numpy as np
 import scipy.sparse as sps
@@ -429,36 +430,15 @@ def check(case, mon):
         return ads[node["i"]]
 
     alg = R.PythonOpsAlgebra(leaf, _ppfuncs(), on_op=on_op)
+    raised = None
     try:
         with np.errstate(all="ignore"):
             R.walk(tree, alg)
     except Exception as exc:  # noqa: BLE001
-        import traceback
         frames = traceback.extract_tb(exc.__traceback__)
         if not any("/porepy/" in f.filename for f in frames):
             raise                       # harness bug, classified by the worker
-        node = alg.failed
-        lab = _label(node) if node is not None else "?"
-        sparray = any(isinstance(getattr(alg.results.get(id(c)), "jac", None), sps.sparray)
-                      for c in (R.children(node) if node is not None else []))
-        where = next((f"{f.filename.split('/')[-1]}:{f.name}" for f in reversed(frames)
-                      if "/porepy/" in f.filename), "?")
-        mech = f"{lab}:raises-{type(exc).__name__}" + ("[sparse-array-jacobian]" if sparray else "")
-        if node is not None:
-            jacs = [getattr(alg.results.get(id(c)), "jac", None) for c in R.children(node)]
-            fmts = [getattr(j, "format", None) for j in jacs]
-            if node["op"] == "getitem" and fmts and fmts[0] == "coo":
-                mech = "getitem:coo-jacobian"
-            elif node["op"] == "getitem" and sparray:
-                mech = "getitem:sparse-array-jacobian"
-            elif lab == "maximum" and sparray and isinstance(exc, AttributeError):
-                mech = "maximum:sparse-array-jacobian"
-            elif lab == "maximum" and isinstance(exc, ValueError) and fmts and fmts[0] == "csc":
-                mech = "maximum:csc-jacobian"
-        _viol(mon, mech,
-                      {"where": where, "message": str(exc)[:300],
-                       "node": node if node is not None and R.count_nodes(node) <= 8 else lab})
-        return
+        raised = (exc, frames)
     mon.count("expressions_evaluated")
 
     # decide every node, children first
@@ -468,6 +448,8 @@ def check(case, mon):
         want = ref.results.get(id(node))
         if not isinstance(want, R.Dual):
             continue
+        if id(node) not in alg.results:
+            continue                    # not reached because an operation raised
         got = alg.results.get(id(node))
         lab = _label(node)
         mon.count("nodes_compared")
@@ -476,6 +458,11 @@ def check(case, mon):
             return
         gv = np.asarray(got.val)
         if gv.shape != want.v.shape or got.jac.shape != want.J.shape:
+            if node["op"] == "getitem" and isinstance(got.jac, sps.sparray):
+                # integer index on a sparse-ARRAY Jacobian yields a 1-d object
+                _viol(mon, "getitem:sparse-array-jacobian",
+                      {"jac": list(got.jac.shape), "want_jac": list(want.J.shape)})
+                return
             _viol(mon, f"{lab}:shape", {"val": list(gv.shape), "want": list(want.v.shape),
                                            "jac": list(got.jac.shape),
                                            "want_jac": list(want.J.shape)})
@@ -519,6 +506,31 @@ def check(case, mon):
                                  "node": node if R.count_nodes(node) <= 6 else lab,
                                  "fd_agrees_with_reference": True})
             return
+    if raised is not None:
+        # all nodes evaluated before the exception agree with the reference: the node
+        # whose own operation raised is the culprit
+        exc, frames = raised
+        node = alg.failed
+        lab = _label(node) if node is not None else "?"
+        kids = R.children(node) if node is not None else []
+        jacs = [getattr(alg.results.get(id(c)), "jac", None) for c in kids]
+        sparray = any(isinstance(j, sps.sparray) for j in jacs)
+        fmts = [getattr(j, "format", None) for j in jacs]
+        where = next((f"{f.filename.split('/')[-1]}:{f.name}" for f in reversed(frames)
+                      if "/porepy/" in f.filename), "?")
+        mech = f"{lab}:raises-{type(exc).__name__}" + ("[sparse-array-jacobian]" if sparray else "")
+        if node is not None:
+            if node["op"] == "getitem" and fmts and fmts[0] == "coo":
+                mech = "getitem:coo-jacobian"
+            elif node["op"] == "getitem" and sparray:
+                mech = "getitem:sparse-array-jacobian"
+            elif lab == "maximum" and sparray and isinstance(exc, AttributeError):
+                mech = "maximum:sparse-array-jacobian"
+            elif lab == "maximum" and isinstance(exc, ValueError) and fmts and fmts[0] == "csc":
+                mech = "maximum:csc-jacobian"
+        _viol(mon, mech, {"where": where, "message": str(exc)[:300],
+                          "node": node if node is not None and R.count_nodes(node) <= 8 else lab})
+        return
     mon.measure("value_residual", _fin(worst_v))
     mon.measure("jacobian_residual", _fin(worst_j))
     # which operations sit highest above the round-off floor (1 % of the tolerance)
